@@ -923,10 +923,7 @@ func mainC10() {
 		})
 	})
 	for _, d := range deaths {
-		if d.LastCase == "" {
-			evid.EngineError("C10", "worker %d ended without a result and without a published case: %s %s", d.Shard, d.ExitErr, tail(d.Stderr, 500))
-		}
-		r.Violate("replay/worker-died/"+panicClass(firstPanicLine(d.Stderr))+"/"+topRepoFunc(d.Stderr), fmt.Sprintf("worker %d died (%s) while running %s\n%s", d.Shard, d.ExitErr, d.LastCase, tail(d.Stderr, 1500)), c10Case{})
+		evid.EngineError("C10", "supervisor %d died (%s) while running %s: %s", d.Shard, d.ExitErr, d.LastCase, tail(d.Stderr, 800))
 	}
 	r.Assume("reference = a receiver that rejects every chunk whose sequence number is not greater than the last accepted one; the real receiver may deliver less than the reference (e.g. close the channel) but never more: no message twice, no message containing a non-increasing chunk, no message assembled with replayed material, no replayed chunk kept in the chunk table",
 		"whether the rejection is reported as an error is not judged (the statement asks for rejection, not for a particular report)",
